@@ -81,8 +81,25 @@ def search(ctx):
         nx, ny = int(rng.integers(1, 9)), int(rng.integers(1, 9))
         sp = (float(rng.uniform(0.05, 0.3)), float(rng.uniform(0.05, 0.3)))
         det = detector_grid((nx, ny), sp)
+        # a detector is a set of labelled positions: shifted origins (crops), descending axes (a mirrored camera, a flipped crop)
+        # and axes in arbitrary order (isel with an index list) are as legitimate as the canonical ascending grid
+        layout = "canonical"
+        u = rng.random()
+        if u < 0.25:
+            layout = "shifted"
+            det = det.assign_coords(x=det.x + float(rng.uniform(-3, 3)), y=det.y + float(rng.uniform(-3, 3)))
+        elif u < 0.45:
+            layout = "flipped"
+            fx, fy = bool(rng.integers(0, 2)), bool(rng.integers(0, 2))
+            if not (fx or fy):
+                fx = True
+            det = det.isel(x=slice(None, None, -1) if fx else slice(None), y=slice(None, None, -1) if fy else slice(None))
+        elif u < 0.55:
+            layout = "permuted"
+            det = det.isel(x=[int(v) for v in rng.permutation(nx)], y=[int(v) for v in rng.permutation(ny)])
         tol = 1e-9 if "Lens" in name else 0.0
-        info = dict(theory=name, scatterer=repr(sc), shape=[nx, ny], spacing=list(sp), pol=list(pol))
+        info = dict(theory=name, scatterer=repr(sc), shape=[nx, ny], spacing=list(sp), pol=list(pol), layout=layout,
+                    x=[float(v) for v in det.x.values], y=[float(v) for v in det.y.values])
         ctx.tried("grid-points-subset", (name, type(sc).__name__, nx, ny, i))
         snap = (_snapshot(det), repr(sc))
         try:
@@ -95,6 +112,12 @@ def search(ctx):
             hp_ = calc_holo(dp, sc, illum_polarization=pol, theory=th, **OPT)
             a = _flat_scalar(hg)[perm]
             b = hp_.values
+            # ... and the value the grid result reports AT each position (looked up by its coordinate labels, not by array order)
+            a_lab = np.array([float(hg.sel(x=pts[j, 0], y=pts[j, 1]).values.ravel()[0]) for j in perm])
+            dev_lab = float(np.abs(a_lab - b).max())
+            if not (dev_lab <= tol * max(1.0, float(np.abs(b).max()))):
+                ctx.violation("C07:grid-vs-points:labels:%s" % name, "the value the grid result carries at a position differs from the one-point calculation there (max dev %.3g, %s, %s axes)" % (dev_lab, name, layout),
+                              dict(kind="grid-points-labels", **info))
             dev = float(np.abs(a - b).max())
             if not (dev <= tol * max(1.0, float(np.abs(a).max()))):
                 ctx.violation("C07:grid-vs-points:%s" % name, "grid and explicit point list disagree (max dev %.3g, %s)" % (dev, name),
@@ -172,21 +195,27 @@ def search(ctx):
             ctx.violation("C07:raises:%s:%s" % (name, type(ex).__name__), "%s raised %r" % (name, ex), dict(kind="raises", **info))
     # point lists in which consecutive points share exactly the same direction from the particle (axial scan, ray through the
     # centre with dyadic steps) or the same distance: each value equals the one-point calculation
-    for name, mk, sc in [("Mie", lambda: Mie(), T.rand_sphere(rng)), ("Mie(False,False)", lambda: Mie(False, False), T.rand_sphere(rng))]:
+    from holopy.scattering import Multisphere as _Ms, Tmatrix as _Tm
+    for name, mk, sc in [("Mie", lambda: Mie(), T.rand_sphere(rng)), ("Mie(False,False)", lambda: Mie(False, False), T.rand_sphere(rng)),
+                         ("Lens(Mie)", lambda: Lens(0.8, Mie(False, False), quad_npts_theta=30, quad_npts_phi=32), T.rand_sphere(rng, zmin=3, zmax=6, absorbing=False)),
+                         ("Multisphere", lambda: _Ms(), T.rand_spheres(rng, m=2)), ("Tmatrix", lambda: _Tm(), T.rand_spheroid(rng))]:
         try:
-            c = np.ravel(sc.center).astype(float)
+            c = np.ravel(sc.center if not hasattr(sc, "scatterers") else sc.scatterers[0].center).astype(float)
             dirv = np.array([0.5, 0.25, -1.0])
             lists = {"axial scan": np.array([[c[0], c[1], z] for z in (0.0, 1.0, 2.5, -1.0, 0.5)]),
                      "ray through the centre": np.array([c + t * dirv for t in (1.0, 2.0, 4.0, 8.0, 3.0)]),
                      "ring at equal distance": np.array([[c[0] + 2 * math.cos(a), c[1] + 2 * math.sin(a), 0.0] for a in (0.0, 1.0, 2.0, 4.0)])}
+            # points at different heights in one list (several focal planes at once)
+            lists["points at different heights"] = np.array([[c[0] + dx, c[1] + dy, z] for dx, dy, z in ((0.4, 0.3, 0.0), (1.0, -0.5, 0.4), (-0.6, 0.8, -0.3), (0.2, 1.1, 0.4))])
+            polc = (1.0, 0.0) if name == "Tmatrix" else (0.6, 0.8)
             for lname, P in lists.items():
                 ctx.tried("point-list-coincidences", (name, lname))
-                full = calc_field(detector_points(x=P[:, 0], y=P[:, 1], z=P[:, 2]), sc, illum_polarization=(0.6, 0.8), theory=mk(), **OPT)
+                full = calc_field(detector_points(x=P[:, 0], y=P[:, 1], z=P[:, 2]), sc, illum_polarization=polc, theory=mk(), **OPT)
                 full = full.transpose('point', 'vector').values
                 for j in range(len(P)):
-                    one = calc_field(detector_points(x=P[j:j + 1, 0], y=P[j:j + 1, 1], z=P[j:j + 1, 2]), sc, illum_polarization=(0.6, 0.8), theory=mk(), **OPT)
+                    one = calc_field(detector_points(x=P[j:j + 1, 0], y=P[j:j + 1, 1], z=P[j:j + 1, 2]), sc, illum_polarization=polc, theory=mk(), **OPT)
                     one = one.transpose('point', 'vector').values[0]
-                    if not (np.abs(full[j] - one).max() <= 1e-12 * max(1e-30, np.abs(one).max())):
+                    if not (np.abs(full[j] - one).max() <= (1e-12 if name.startswith("Mie") else 1e-9) * max(1e-30, np.abs(one).max())):
                         ctx.violation("C07:point-list:%s" % name, "%s: point %d of the list gives a different field than the same point alone (rel %.3g, %s)" % (
                             lname, j, np.abs(full[j] - one).max() / max(1e-30, np.abs(one).max()), name),
                             dict(kind="point-list", theory=name, scatterer=repr(sc), points=P.tolist(), which=lname))
